@@ -128,10 +128,17 @@ func (vm *VirtualMachine) start(ctx context.Context) error {
 	vm.startCount++
 	// Halt execution when the context is cancelled
 	vm.halt = 0
+	if verifOn && VerifEvent != nil {
+		VerifEvent("start", vm, vm.startCount, nil)
+	}
 	if doneChan := ctx.Done(); doneChan != nil {
+		armedFor := vm.startCount
 		go func() {
 			<-doneChan
 			atomic.StoreInt32(&vm.halt, 1)
+			if verifOn && VerifEvent != nil {
+				VerifEvent("fire", vm, armedFor, nil)
+			}
 		}()
 	}
 	return nil
@@ -141,6 +148,9 @@ func (vm *VirtualMachine) stop() {
 	vm.runMutex.Lock()
 	defer vm.runMutex.Unlock()
 	vm.running = false
+	if verifOn && VerifEvent != nil {
+		VerifEvent("stop", vm, vm.startCount, nil)
+	}
 }
 
 func (vm *VirtualMachine) Run(ctx context.Context) (err error) {
@@ -282,7 +292,14 @@ func (vm *VirtualMachine) eval(ctx context.Context) error {
 	// Run to the end of the active code
 	for vm.ip < len(vm.activeCode.Instructions) {
 
+		if verifOn && VerifStep != nil {
+			VerifStep(vm, vm.fp, vm.ip, vm.activeCode.Instructions[vm.ip], vm.sp)
+		}
+
 		if atomic.LoadInt32(&vm.halt) == 1 {
+			if verifOn && VerifEvent != nil {
+				VerifEvent("halt_seen", vm, vm.startCount, nil)
+			}
 			return ctx.Err()
 		}
 
@@ -1106,6 +1123,9 @@ func (vm *VirtualMachine) Clone() (*VirtualMachine, error) {
 		clone.activateCode(clone.fp, clone.ip, clone.loadCode(clone.main))
 	}
 
+	if verifOn && VerifEvent != nil {
+		VerifEvent("clone", vm, vm.startCount, clone)
+	}
 	return clone, nil
 }
 
